@@ -173,4 +173,55 @@ def permitted (fx : Fixed) (c : Conf) : Obs → Prop
   | .offer => fx.proxy = false
   | .accept => fx.proxy = false
 
+/-! ### histories with the window between a decision and its send
+
+Tracker announces and web-seed fetches are carried out by goroutines launched by the step
+that decided on them (`go trackerAnnounceSingle`, `go webseedGR/H`): the contact with the
+outside happens later, possibly after further SetConf.  A history interleaves steps with
+deliveries of pending actions in any order. -/
+
+def Obs.async : Obs → Bool
+  | .tracker _ _ | .fetch => true
+  | _ => false
+
+structure HSt where
+  conf    : Conf
+  pending : List (Conf × Obs)   -- decided, not yet sent; tagged with the settings at decision time
+  deriving Repr, DecidableEq
+
+inductive HStep where
+  | act (s : Step)
+  | deliver (i : Nat)           -- the i-th pending action reaches the outside
+  deriving Repr, DecidableEq
+
+structure Event where
+  decided : Conf    -- settings in force when the action was decided / started
+  arrived : Conf    -- settings in force when it reached the outside
+  obs     : Obs
+  deriving Repr, DecidableEq
+
+def hstep (tbl : List Gate) (g : Ports) (fx : Fixed) (h : HSt) : HStep → HSt × List Event
+  | .act s =>
+    let r := step tbl g fx h.conf s
+    ({ conf := r.1, pending := h.pending ++ r.2.filter (fun x => x.2.async) },
+     (r.2.filter (fun x => !x.2.async)).map (fun x => ⟨x.1, x.1, x.2⟩))
+  | .deliver i =>
+    match h.pending[i]? with
+    | some p => ({ h with pending := h.pending.eraseIdx i }, [⟨p.1, h.conf, p.2⟩])
+    | none => (h, [])
+
+def history (tbl : List Gate) (g : Ports) (fx : Fixed) : HSt → List HStep → List Event
+  | _, [] => []
+  | h, s :: ss => let r := hstep tbl g fx h s; r.2 ++ history tbl g fx r.1 ss
+
+/-- the part of `permitted` that does not depend on the (changeable) settings -/
+def permittedFixed (fx : Fixed) : Obs → Prop
+  | .dht _ port => port ≠ 0 → fx.proxy = false
+  | .tracker p4 p6 => fx.proxy = true → p4 = 0 ∧ p6 = 0
+  | .fetch => fx.hasWs = true
+  | .portMsg _ => fx.proxy = false
+  | .ext0 v p i => fx.proxy = true → v = false ∧ p = 0 ∧ i = false
+  | .offer => fx.proxy = false
+  | .accept => fx.proxy = false
+
 end Storrent.Privacy
